@@ -30,6 +30,8 @@ struct Outcome {
     /// the until-EOF fields were cut back before a rebuild (Switches::trim_unbounded)
     trimmed: bool,
     file_len: usize,
+    /// what the edit stage (Case::edit) did to the parsed tile, if it ran
+    edit_note: Option<&'static str>,
 }
 
 fn parse_root(bytes: &[u8], stage: &str, last_sub: Option<&str>) -> Result<Box<wow_adt::api::RootAdt>, Fail> {
@@ -110,6 +112,66 @@ fn trim(root: &mut wow_adt::api::RootAdt, l: &TrimLens) -> bool {
     cut
 }
 
+/// The change a caller makes between parse and rebuild (Case::edit), through the public fields /
+/// accessors of `RootAdt` only. Deterministic in (edit, seed). Returns what was done, `None` when
+/// the edit does not apply to this tile.
+fn apply_edit(root: &mut wow_adt::api::RootAdt, edit: u8, seed: u64) -> Option<&'static str> {
+    use wow_adt::chunks::mh2o::{Mh2oChunk, Mh2oEntry};
+    if root.version < wow_adt::AdtVersion::WotLK {
+        // from_parsed() targets the detected version; the builder documents that it rejects
+        // water data below WotLK, so a caller cannot make this edit there
+        return None;
+    }
+    match edit {
+        1 => match root.water_data_mut() {
+            Some(w) => {
+                for e in w.entries.iter_mut() {
+                    *e = Mh2oEntry::default();
+                }
+                Some("every-entry-reset")
+            }
+            None => {
+                root.water_data = Some(Mh2oChunk::new());
+                Some("empty-table-inserted")
+            }
+        },
+        2 => {
+            let w = root.water_data_mut()?;
+            let mut r = build::Sm(seed ^ 0xED17_ED17_ED17_ED17);
+            let mut k = 0;
+            for e in w.entries.iter_mut().filter(|e| !e.instances.is_empty()) {
+                // the first liquid entry is always reset, the others: keep / reset / drop last layer
+                let what = if k == 0 { 1 } else { r.below(3) };
+                k += 1;
+                match what {
+                    1 => *e = Mh2oEntry::default(),
+                    2 => {
+                        e.instances.pop();
+                        e.vertex_data.truncate(e.instances.len());
+                        e.exists_bitmaps.truncate(e.instances.len());
+                        e.header.layer_count = e.instances.len() as u32;
+                    }
+                    _ => {}
+                }
+            }
+            if w.entries.iter().all(|e| e.instances.is_empty()) {
+                // nothing left that the attribute blocks could describe
+                for e in w.entries.iter_mut() {
+                    *e = Mh2oEntry::default();
+                }
+                Some("thinned-to-nothing")
+            } else {
+                Some("thinned")
+            }
+        }
+        3 => {
+            root.water_data.take()?;
+            Some("table-removed")
+        }
+        _ => None,
+    }
+}
+
 fn run_case(raw: &Case, rounds: u32) -> Outcome {
     let (case, removed) = raw.effective();
     let (class, nontrivial) = case.class();
@@ -124,6 +186,7 @@ fn run_case(raw: &Case, rounds: u32) -> Outcome {
         reached_compare: false,
         trimmed: false,
         file_len: 0,
+        edit_note: None,
     };
     let inputs = build::materialise(&case);
     let built_version = inputs.version;
@@ -249,6 +312,7 @@ fn run_case(raw: &Case, rounds: u32) -> Outcome {
     // rounds of parse → from_root_adt → to_bytes
     let do_trim = case.switches.trim_unbounded;
     let rounds = if do_trim { rounds } else { rounds.min(2) };
+    let edit_root = (case.edit != 0).then(|| (*parsed0).clone());
     let mut prev_root = parsed0;
     let mut prev_bytes = bytes0;
     let mut prev_sizes = w0.map(|w| w.sizes);
@@ -333,6 +397,47 @@ fn run_case(raw: &Case, rounds: u32) -> Outcome {
             }
         }
     }
+    // parse → edit → rebuild (Case::edit): the tile as first parsed is changed the way a caller
+    // of the modify workflow would, then rebuilt through both entry points. What goes into the
+    // rebuild is the expectation; the walker judges the bytes.
+    if let Some(mut root) = edit_root {
+        if do_trim || !had_unbounded {
+            if do_trim {
+                trim(&mut root, &lens);
+            }
+            o.edit_note = apply_edit(&mut root, case.edit, case.seed);
+            if o.edit_note.is_some() {
+                let want = content::of_root(&root);
+                type Entry = (&'static str, fn(wow_adt::api::RootAdt) -> wow_adt::Result<Vec<u8>>);
+                let entries: [Entry; 2] = [
+                    ("edit→from_root_adt", |r| BuiltAdt::from_root_adt(r, None).to_bytes()),
+                    ("edit→from_parsed", |r| AdtBuilder::from_parsed(r).build().and_then(|b| b.to_bytes())),
+                ];
+                for (stage, rebuild) in entries {
+                    let r = root.clone();
+                    match guard(stage, move || rebuild(r)) {
+                        Err(f) => o.fails.push(f),
+                        Ok(Err(e)) => o.fails.push(Fail::new(
+                            format!("edited-tile-rejected:{}", vcheck::engine::normalise_msg(&e.to_string())),
+                            format!("[{stage}] rebuilding the edited tile ({}) failed: {e}", o.edit_note.unwrap_or("")),
+                        )),
+                        Ok(Ok(b)) => {
+                            let (w, wf) = walk::check_file(&b, stage);
+                            o.fails.extend(wf);
+                            let last_sub = w.as_ref().and_then(|w| w.last_sub.clone());
+                            match parse_root(&b, stage, last_sub.as_deref()) {
+                                Ok(p) => o.fails.extend(content::diff("rebuild", stage, &want, &content::of_root(&p), &b, false)),
+                                Err(mut f) => {
+                                    f.signature = format!("rebuild-{}", f.signature);
+                                    o.fails.push(f);
+                                }
+                            }
+                        }
+                    }
+                }
+            }
+        }
+    }
     // de-duplicate signatures (several rounds hit the same clause)
     let mut seen = std::collections::BTreeSet::new();
     o.fails.retain(|f| seen.insert(f.signature.clone()));
@@ -348,6 +453,9 @@ fn account(check: &Check, label: &str, raw: &Case, o: &Outcome) -> Option<Fail> 
     }
     if let Some(v) = &o.version_note {
         check.bump(&format!("version_detected_differs:{v}"), 1);
+    }
+    if let Some(e) = o.edit_note {
+        check.bump(&format!("edit_applied:{e}"), 1);
     }
     check.bump(&format!("names_style:{}", raw.name_style), 1);
     check.bump(&format!("float_class:{}", raw.float_class), 1);
@@ -425,6 +533,8 @@ fn base_case(version: u8, seed: u64, sw: &Switches) -> Case {
         mamp: false,
         mtxp: 0,
         blend: 0,
+        water_table: false,
+        edit: 0,
         switches: sw.clone(),
     }
 }
@@ -548,6 +658,49 @@ fn grid(sw: &Switches) -> Vec<(String, Case)> {
             let mut c = b(95);
             c.water = (0..=255u8).map(|i| WaterShape { index: i, layers: 1, lvf: i % 5, bitmap: i % 2 == 1, attributes: true, full: i % 3 == 0 }).collect();
             g.push((format!("{vn}/water-all-chunks"), c));
+            // water on the empty set of chunks: the builder is handed a table without liquid
+            // (with / without MFBO in front of it, serializer-generated / given terrain chunks)
+            let mut c = b(100);
+            c.water_table = true;
+            g.push((format!("{vn}/water-empty-table"), c));
+            let mut c = b(101);
+            c.water_table = true;
+            c.mfbo = true;
+            c.mtxf = 1;
+            c.chunks = vec![full_shape(3), shape(|s| s.heights = true)];
+            g.push((format!("{vn}/water-empty-table+chunks"), c));
+            // entries that hold an attribute block but no layer, next to liquid ones
+            let some_water = || {
+                vec![
+                    WaterShape { index: 0, layers: 0, lvf: 0, bitmap: false, attributes: true, full: true },
+                    WaterShape { index: 5, layers: 2, lvf: 1, bitmap: true, attributes: true, full: false },
+                    WaterShape { index: 6, layers: 1, lvf: 4, bitmap: false, attributes: false, full: true },
+                    WaterShape { index: 200, layers: 3, lvf: 3, bitmap: true, attributes: false, full: false },
+                    WaterShape { index: 255, layers: 0, lvf: 0, bitmap: false, attributes: true, full: true },
+                ]
+            };
+            let mut c = b(102);
+            c.chunks = vec![full_shape(3), shape(|s| s.heights = true)];
+            c.water = some_water();
+            g.push((format!("{vn}/water-attr-only-entries"), c));
+            // parse → edit → rebuild: water emptied / thinned / removed, and an empty table put
+            // into a tile that had no water
+            for e in 1u8..=3 {
+                let mut c = b(110 + e as u64);
+                c.chunks = vec![full_shape(3), shape(|s| s.heights = true)];
+                c.mfbo = e != 2;
+                c.water = some_water();
+                c.edit = e;
+                g.push((format!("{vn}/edit-{}", case::EDITS[e as usize]), c));
+            }
+            let mut c = b(120);
+            c.chunks = vec![full_shape(4)];
+            c.edit = 1;
+            g.push((format!("{vn}/edit-empty-table-inserted"), c));
+            let mut c = b(121);
+            c.mfbo = true;
+            c.edit = 1;
+            g.push((format!("{vn}/edit-empty-table-inserted-auto256"), c));
         }
         if v >= 4 {
             let mut c = b(72);
@@ -642,17 +795,24 @@ fn main() {
          top-level optional chunks × float class) plus a seed; build.rs expands it deterministically into public-API \
          builder calls honouring the documented filename / version / count rules. Deterministic grid (every version × \
          {serializer-generated 256, bare, each sub-chunk alone, all sub-chunks, two different chunks, 256 different chunks, \
-         name styles, float classes, each top-level optional chunk, every MH2O vertex format ± bitmap}) + canaries with \
+         name styles, float classes, each top-level optional chunk, every MH2O vertex format ± bitmap, a water table without liquid (water on the \
+         empty set of chunks), attribute-only water entries, and the modify workflow parse → edit → rebuild with the water \
+         emptied / thinned / removed / an empty table inserted}) + canaries with \
          the exclusion switches off + proptest volume (three batches: steered, steered with 180..256-chunk tiles — 1 \
          tile in 10 —, and unsteered). Every case: build → to_bytes → walker → parse → content diff, then up to 3 (6) \
-         rounds of from_root_adt → to_bytes → walker → parse → diff + length, then one from_parsed().build() round. \
+         rounds of from_root_adt → to_bytes → walker → parse → diff + length, then one from_parsed().build() round; cases with an edit (1 in 4 of the WotLK+ ones) also change the first \
+         parse through RootAdt's public water accessors and rebuild it through from_root_adt and from_parsed (walker + \
+         parse + diff against the edited tile). \
          Non-trivial = ≥2 MCNK with different sub-chunk sets, or MH2O water, or version ≥ WotLK with version-specific \
          chunks (MTXF/MAMP/MTXP/blend mesh/MCLV). Distinct = batch × version × chunk-count class (auto256, 1, 2-4, 5-15, \
          16-255, 256) × number of distinct sub-chunk sets (1, 2, 3+) × set of alpha encodings × legacy liquid? × \
-         refs/extras? × set of top-level optional chunks; name styles and float classes are tallied in counters.",
+         refs/extras? × set of top-level optional chunks (W liquid, Wo with attribute-only entries, w table without \
+         liquid) × edit; name styles and float classes are tallied in counters.",
     );
     check.assume("chunk magics are byte-reversed on disk; MHDR offsets are relative to the MHDR payload start; MCNK sub-offsets are relative to the MCNK chunk header (wowdev ADT/v18; also the crate's own comments)");
     check.assume("MCIN.size counts the MCNK chunk including its 8-byte header (repository docs/src/formats/world-data/adt.md and the crate's legacy writer mcnk_writer.rs both say so)");
+    check.assume("the MHDR flag word belongs to the header table: bit 0x1 announces MFBO (wowdev, and the serializer's own comment), bit 0x2 announces MH2O in this crate's files (serializer comment '0x02: MH2O present'); only 'announced but absent' is judged for MH2O");
+    check.assume("a water table in which no entry holds liquid is a legal builder input (Mh2oChunk::new() is the crate's constructor for it, 'water on arbitrary chunks' includes the empty set) and is the same content as no water; attribute blocks without any liquid in the whole table are not generated");
     check.assume("an absent chunk and an empty one are the same content; WotLK+ files carry a zero MTXF when none was given (documented by the serializer)");
     check.assume("the detected `version` field is not content: the statement lists content and demands it for every *target* version; detection differences are only counted (counter version_detected_differs:*) unless they drop content");
     check.assume("MCNK headers given to the builder describe their sub-chunks (flag 0x01/0x40/liquid bits, reference counts); flag 0x200 (MoP 5.3 high-res holes) is not generated");
@@ -692,6 +852,9 @@ fn main() {
             check.bump(&format!("version_detected_differs:{v}"), 1);
         }
         check.bump(if o.reached_compare { "cases_compared" } else { "cases_stopped_before_compare" }, 1);
+        if let Some(e) = o.edit_note {
+            check.bump(&format!("edit_applied:{e}"), 1);
+        }
         if o.nontrivial {
             check.sample(name, || json!({"grid": name, "class": o.class, "file_len": o.file_len, "case": serde_json::to_value(c).unwrap()}));
         }
@@ -700,11 +863,16 @@ fn main() {
         }
         if label == "grid" {
             let key = name.split('/').nth(1).unwrap_or("").to_string();
-            let ess = ["auto256", "single-full", "two-different", "256-full", "water-all-chunks", "top-everything", "top-mfbo"];
+            let ess = [
+                "auto256", "single-full", "two-different", "256-full", "water-all-chunks", "top-everything", "top-mfbo",
+                "water-empty-table", "water-empty-table+chunks", "edit-water-emptied", "edit-water-thinned", "edit-water-removed",
+                "edit-empty-table-inserted",
+            ];
             if ess.contains(&key.as_str()) {
                 let e = essential.entry(name.clone()).or_insert((0, 0));
                 e.0 += 1;
-                e.1 += o.reached_compare as u32;
+                // an edit class is reached only if the edit was really made and rebuilt
+                e.1 += (o.reached_compare && (c.edit == 0 || o.edit_note.is_some())) as u32;
             }
         }
     }
@@ -713,7 +881,8 @@ fn main() {
             check.inconclusive(&format!("essential grid class {name} never reached the comparison stage"));
         }
     }
-    if essential.len() < 6 * 4 {
+    // 4 classes × 6 versions, top-mfbo × 4, water-all-chunks + the 6 water-table / edit classes × 3, top-everything × 1
+    if essential.len() < 6 * 4 + 4 + 7 * 3 + 1 {
         check.inconclusive("essential grid classes missing");
     }
 
